@@ -376,13 +376,34 @@ def check(run):
         why_unbounded = (f"the context arm (`{norm_src(ctx_push[0])}` at {sn_.module.rel}:{ctx_push[0].lineno}) nests later hits under an undecoded hit without "
                          f"consuming depth_limit and without a bound on len({STACK}): the tree's height is bounded only by the input length, e.g. "
                          "b'createobject(' * 1500 + b'x' + b')' * 1500 gives a tree 1501 levels deep and RecursionError in every recursive view")
+    _cg = []
+
+    def call_graph_for_views():
+        if not _cg:
+            from ..model import call_graph as _call_graph
+            _cg.append(_call_graph(prog))
+        return _cg[0]
     n_views = 0
     for key, ok, where, what, det, tmpl in T.results:
         if "T6 structural descent" not in tmpl or "T5 " in tmpl or not key.endswith("/recursion"):
             continue      # (a recursion that also spends a decreasing budget parameter is bounded by that budget)
         fq = key[: -len("/recursion")]
         n_views += 1
-        run.ob("R3-recursion-depth", f"{fq}/height-bounded-by-budget", bounded or not ctx_push, where,
+        # the construct is the VIEW: a closure or private helper that only serves one public function is keyed by that function
+        # (Node.__iter__'s generator is the same view whether it is a nested function or a private method)
+        view = fq
+        g_ = next((f_ for f_ in prog.all_funcs() if f_.fq == fq), None)
+        if g_ is not None:
+            if g_.parent is not None:
+                view = g_.parent.fq
+            elif g_.qualname.rsplit(".", 1)[-1].startswith("_") and not g_.qualname.rsplit(".", 1)[-1].startswith("__"):
+                nm_ = g_.qualname.rsplit(".", 1)[-1]
+                callers_ = sorted({c_.fq for c_, outs_ in call_graph_for_views().items() if g_ in outs_ and c_ is not g_ and not isinstance(c_.node, ast.Lambda) and any(
+                    isinstance(x_, ast.Call) and ((isinstance(x_.func, ast.Attribute) and x_.func.attr == nm_) or (isinstance(x_.func, ast.Name) and x_.func.id == nm_))
+                    for x_ in ast.walk(c_.node))})
+                if len(callers_) == 1:
+                    view = callers_[0]
+        run.ob("R3-recursion-depth", f"{view}/height-bounded-by-budget", bounded or not ctx_push, where,
                f"{fq.rsplit('.', 1)[-1]} recurses once per tree level, so the height of the trees scan() builds must be bounded by the depth budget "
                "(or by a bound on the context stack)", "" if (bounded or not ctx_push) else why_unbounded, mech="T6 recursion x frame analysis of the context arm")
     run.note("recursive_views", n_views)
